@@ -69,20 +69,64 @@ class UniverseDB:
         return sorted(t for t in self.pages if start <= t <= end)
 
 
-HARD_CPU = float(os.environ.get("C01_HARD_CPU", "20"))
+# CPU budget of the oracle: C0 + C*n^2 seconds, n = max(len(raw), len(expanded text)).  Calibrated on the
+# unchanged tree (60 000 inputs up to 5 000 chars: max 0.6 s, i.e. > 5x headroom everywhere).
+BUDGET_C0 = 3.0
+BUDGET_C = 2e-6
 
 
-class HardTimeout(BaseException):
-    pass
+def budget(n):
+    return BUDGET_C0 + BUDGET_C * n * n
 
 
-def _alarm(_sig, _frm):
-    raise HardTimeout()
+class OverBudget(BaseException):
+    def __init__(self, where):
+        BaseException.__init__(self, where)
+        self.where = where
+
+
+_seen_len = [0]
+_t0 = [0.0]
+_nraw = [0]
+_scale = [1.0]
+
+
+def _where(frame):
+    """Which refinement pass / handler was running: qualnames of the first two frames below the outermost
+    CombinedParser.__call__ (else below parse_string)."""
+    stack = []
+    while frame is not None:
+        stack.append(frame)
+        frame = frame.f_back
+    stack.reverse()
+    names = [(f.f_code.co_filename.replace("\\", "/"), f.f_code.co_qualname) for f in stack]
+    start = None
+    for i, (fn, q) in enumerate(names):
+        if q == "CombinedParser.__call__":
+            start = i + 1
+            break
+    if start is None:
+        for i, (fn, q) in enumerate(names):
+            if q == "parse_string" and "/mwlib/" in fn:
+                start = i + 1
+                break
+    if start is None:
+        return "?"
+    sel = [q for fn, q in names[start:] if "/mwlib/" in fn and q != "_recording_parse_txt"][:2]
+    return "/".join(sel) or "?"
+
+
+def _alarm(_sig, frame):
+    used = time.process_time() - _t0[0]
+    b = budget(max(_nraw[0], _seen_len[0])) * _scale[0]
+    if used < b:
+        signal.setitimer(signal.ITIMER_VIRTUAL, max(b - used, 0.01))
+        return
+    raise OverBudget(_where(frame))
 
 
 signal.signal(signal.SIGVTALRM, _alarm)
 
-_seen_len = [0]
 _orig_parse_txt = compat.parse_txt
 
 
@@ -96,21 +140,37 @@ def _recording_parse_txt(raw, **kw):
 compat.parse_txt = _recording_parse_txt
 
 
-def innermost_mwlib_frame(tb):
-    fr = None
-    for f in traceback.extract_tb(tb):
-        fn = f.filename.replace("\\", "/")
+def innermost_mwlib_frame(tb, recursion=False):
+    frames = []
+    cur = tb
+    while cur is not None:
+        co = cur.tb_frame.f_code
+        fn = co.co_filename.replace("\\", "/")
         if "/mwlib/" in fn:
-            fr = "%s:%s" % (fn.split("/mwlib/", 1)[1], f.name)
-    return fr or "?"
+            frames.append((fn.split("/mwlib/", 1)[1], co.co_name, co.co_qualname))
+        cur = cur.tb_next
+    if not frames:
+        return "?"
+    if recursion:
+        # the innermost frame of a RecursionError is arbitrary: name the recursion cycle instead
+        cnt = {}
+        for _f, _n, q in frames:
+            cnt[q] = cnt.get(q, 0) + 1
+        cyc = sorted(q for q, k in cnt.items() if k >= 5)
+        return "cycle(" + ",".join(cyc[:8]) + ")"
+    return "%s:%s" % (frames[-1][0], frames[-1][1])
 
 
-def run_one(raw, lang, db, hard=HARD_CPU):
+def run_one(raw, lang, db, scale=1.0):
+    """The property's oracle on one input: parse_string returns an Article, raises nothing, and stays within
+    the CPU budget (the run is aborted as soon as the budget is exceeded)."""
     wikidb = None if db is None else UniverseDB(db, lang)
     _seen_len[0] = -1
-    t0 = time.process_time()
+    _nraw[0] = len(raw)
+    _scale[0] = scale
+    _t0[0] = t0 = time.process_time()
     res = {"ok": True, "exc": None, "frame": None, "msg": None}
-    signal.setitimer(signal.ITIMER_VIRTUAL, hard)
+    signal.setitimer(signal.ITIMER_VIRTUAL, budget(len(raw)) * scale)
     try:
         try:
             art = uparser.parse_string(title="t", raw=raw, wikidb=wikidb, lang=lang)
@@ -118,28 +178,31 @@ def run_one(raw, lang, db, hard=HARD_CPU):
                 res.update(ok=False, exc="NotAnArticle", frame="uparser.py:parse_string", msg=type(art).__name__)
         finally:
             signal.setitimer(signal.ITIMER_VIRTUAL, 0)
-    except HardTimeout:
-        res.update(ok=False, exc="HardTimeout", frame="-", msg="cpu > %.0fs" % hard)
+    except OverBudget as e:
+        n = max(len(raw), _seen_len[0])
+        res.update(ok=False, exc="OverBudget", frame=e.where, msg="cpu > %.1f s = %.1f + %.0e*n^2, n=%d" % (budget(n) * scale, BUDGET_C0, BUDGET_C, n))
     except BaseException as e:  # noqa: B902  (SystemExit/KeyboardInterrupt from the parser are failures too)
         signal.setitimer(signal.ITIMER_VIRTUAL, 0)
-        res.update(ok=False, exc=type(e).__name__, frame=innermost_mwlib_frame(e.__traceback__), msg=str(e)[:200])
+        res.update(ok=False, exc=type(e).__name__, frame=innermost_mwlib_frame(e.__traceback__, isinstance(e, RecursionError)), msg=str(e)[:200])
     res["cpu"] = round(time.process_time() - t0, 5)
     res["n"] = len(raw)
     res["nexp"] = max(_seen_len[0], 0)
     return res
 
 
-def fingerprint(res, budget_fp=None):
+def fingerprint(res):
+    if res["exc"] == "OverBudget":
+        return "slow@%s" % res["frame"]
     if res["exc"]:
         return "exc:%s@%s" % (res["exc"], res["frame"])
     return None
 
 
-def ddmin(s, test):
+def ddmin(s, test, max_steps=600):
     """classic delta debugging on a string; `test(s)` is True when the failure is kept"""
     n = 2
     steps = 0
-    while len(s) >= 2 and steps < 400:
+    while len(s) >= 2 and steps < max_steps:
         chunk = max(1, len(s) // n)
         reduced = False
         i = 0
@@ -161,17 +224,12 @@ def ddmin(s, test):
 
 def minimise(obj):
     lang, db, fp = obj["lang"], obj["db"], obj["fp"]
-    cpu_limit = obj.get("cpu_limit")
 
     def keeps(raw, dbx):
-        r = run_one(raw, lang, dbx, hard=(cpu_limit * 4 if cpu_limit else HARD_CPU))
-        if fp.startswith("exc:"):
-            return fingerprint(r) == fp
-        return r["cpu"] > cpu_limit          # slow inputs: keep it over the same absolute limit
+        return fingerprint(run_one(raw, lang, dbx)) == fp
     raw = obj["raw"]
     if not keeps(raw, db):
         return {"raw": raw, "db": db, "steps": 0, "reproduced": False}
-    steps = 0
     if db:
         if keeps(raw, None):
             db = None
@@ -182,7 +240,10 @@ def minimise(obj):
                 d2 = {a: b for a, b in db.items() if a != k}
                 if keeps(raw, d2):
                     db = d2
-    if fp.startswith("exc:"):
+    if fp.startswith("slow@"):
+        # every probe of a slow input costs a full budget: few, coarse steps only
+        raw, steps = ddmin(raw, lambda s: keeps(s, db), max_steps=24)
+    else:
         raw, steps = ddmin(raw, lambda s: keeps(s, db))
     return {"raw": raw, "db": db, "steps": steps, "reproduced": True}
 
@@ -200,6 +261,7 @@ def main():
         c = json.loads(line)
         r = run_one(c["raw"], c["lang"], c.get("db"))
         r["id"] = c["id"]
+        r["fp"] = fingerprint(r)
         sys.stdout.write(json.dumps(r) + "\n")
         sys.stdout.flush()
 
